@@ -1025,3 +1025,71 @@ RECIPES += [
     ("C03", "neutral", [], S, "def _absmeth(resp):\n    return abs(resp).max(axis=0)\n", "def _absmeth(resp):\n    return np.fabs(resp).max(0)\n", "_absmeth: np.fabs, positional axis"),
     ("C03", "break", ["C03-R8"], S, "def _absmeth(resp):\n    return abs(resp).max(axis=0)\n", "def _absmeth(resp):\n    return np.fabs(resp).max(1)\n", "_absmeth: peak over the signals"),
 ]
+
+# canonical forms of rows / reductions / allocations, windows taken before the offset is added, contraction forms of the vrs quadrature, string tests on options
+_IC_HEAD = '''    s1 = sig[0]
+    if ic == "shift":
+        sig = sig - s1
+    elif ic == "mshift":
+        sig = sig - sig.mean(axis=0)
+'''
+_IC_HEAD_ROWS = '''    s1 = sig[0, :]
+    if ic == "shift":
+        sig = sig - sig[:1]
+    elif ic == "mshift":
+        sig = sig - sig.mean(axis=0, keepdims=True)
+'''
+_PAD_TAIL = '''        z = np.zeros((nzeros, H))
+        if ic == "steady":
+            sig = np.vstack((sig, z - s1))
+        else:
+            sig = np.vstack((sig, z))
+'''
+_PAD_TAIL_FULL = '''        if ic == "steady":
+            pad = np.full((nzeros, H), 0.0) - s1
+        else:
+            pad = np.full((nzeros, H), 0.0)
+        sig = np.vstack((sig, pad))
+'''
+_IC_SERIAL_WINDOW = '''            dT = 1 / sr
+            for j in range(LF):
+                b, a = coeffunc(Q, dT, wn[j])
+                window = signal.lfilter(b, a, sig, axis=0)[S:, :]
+                if stype == "reldisp":
+                    window = window + icvals / wn[j] ** 2
+                elif stype == "pvelo":
+                    window = window + icvals / wn[j]
+                else:
+                    window = window + icvals
+                SRSmax[j] = methfunc(window)
+                if getresp:
+                    resp["hist"][:, :, j] = window
+'''
+_RESID_T = '''        if ptr == 2:
+            # residual
+            resp["t"] = np.arange(M, N) / sr
+'''
+_VRS_NOHIST = "        t = ((1 + p2z2) / ((1 - p**2) ** 2 + p2z2) * df) * psdfull.T\n        z_vrs[i] = np.sqrt(np.sum(t, axis=1))\n"
+
+RECIPES += [
+    ("C03", "neutral", [], S, _IC_HEAD, _IC_HEAD_ROWS, "_process_ic: first row as sig[0, :] / sig[:1], mean with keepdims"),
+    ("C03", "break", ["C03-R4"], S, _IC_HEAD, _IC_HEAD_ROWS.replace("sig = sig - sig[:1]", "sig = sig - sig[-1:]"), "_process_ic: 'shift' removes the last sample"),
+    ("C03", "neutral", [], S, _PAD_TAIL, _PAD_TAIL_FULL, "_add_one_cycle: appended block through np.full"),
+    ("C03", "break", ["C03-R4"], S, _PAD_TAIL, _PAD_TAIL_FULL.replace("np.full((nzeros, H), 0.0) - s1", "np.full((nzeros, H), 0.0) + s1"), "_add_one_cycle: np.full block with the offset added"),
+    ("C03", "break", ["C03-R4"], S, _PAD_TAIL, _PAD_TAIL_FULL.replace("            pad = np.full((nzeros, H), 0.0)\n", "            pad = np.full((nzeros, H), 1.0)\n"), "_add_one_cycle: np.full block of ones"),
+    ("C03", "neutral", [], S, _IC_SERIAL, _IC_SERIAL_WINDOW, "srs: the window is cut out of the filter output before the steady-state value is added"),
+    ("C03", "break", ["C03-R3"], S, _IC_SERIAL, _IC_SERIAL_WINDOW.replace("window = window + icvals / wn[j]\n", "window = window - icvals / wn[j]\n"), "srs: window first, pvelo offset subtracted"),
+    ("C03", "break", ["C03-R4"], S, _IC_SERIAL, _IC_SERIAL_WINDOW.replace("[S:, :]", "[M:, :]"), "srs: window first, cut at the end of the primary part"),
+    ("C03", "neutral", [], S, _RESID_T, '        if 1 < ptr <= 2:\n            # residual\n            tall = np.arange(N) / sr\n            resp["t"] = tall[M:]\n', "srs: chained comparison on ptr, time vector as a slice of the full one"),
+    ("C03", "break", ["C03-R4"], S, _RESID_T, '        if 1 < ptr <= 2:\n            # residual\n            tall = np.arange(N) / sr\n            resp["t"] = tall[M + 1:]\n', "srs: sliced time vector starts one sample late"),
+    ("C03", "break", ["C03-R4"], S, _RESID_T, '        if 1 <= ptr <= 2:\n            # residual\n            resp["t"] = np.arange(M, N) / sr\n', "srs: chained comparison includes time='total'"),
+    ("C03", "neutral", [], S, '        elif stype == "relacce" or stype == "relvelo":\n', '        elif stype.startswith("rel") and not stype.endswith("disp"):\n', "_process_ic: response types told apart by string methods"),
+    ("C03", "break", ["C03-R3"], S, '        elif stype == "relacce" or stype == "relvelo":\n', '        elif stype.startswith("rel"):\n', "_process_ic: string test also catches reldisp"),
+    ("C03", "neutral", [], S, "    if ptr:\n        sig, N = _add_one_cycle(sig, freq, sr, H, ic, s1)\n", '    if time[:1] in "tr":\n        sig, N = _add_one_cycle(sig, freq, sr, H, ic, s1)\n', "srs: padding decided by the first letter of `time`"),
+    ("C03", "break", ["C03-R4"], S, "    if ptr:\n        sig, N = _add_one_cycle(sig, freq, sr, H, ic, s1)\n", '    if time[:1] in "pr":\n        sig, N = _add_one_cycle(sig, freq, sr, H, ic, s1)\n', "srs: padding decided by the wrong letters"),
+    ("C03", "neutral", [], S, "            z_vrs[i] = np.sqrt(np.sum(df * t, axis=1))\n", "            z_vrs[i] = np.sqrt(t @ df)\n", "vrs: quadrature as a matrix product with the weights (equal up to rounding)"),
+    ("C03", "break", ["C03-R6"], S, "            z_vrs[i] = np.sqrt(np.sum(df * t, axis=1))\n", "            z_vrs[i] = np.sqrt(t @ (df * df))\n", "vrs: matrix product with squared weights"),
+    ("C03", "neutral", [], S, _VRS_NOHIST, "        t = ((1 + p2z2) / ((1 - p**2) ** 2 + p2z2)) * psdfull.T\n        z_vrs[i] = np.sqrt(np.dot(t, df))\n", "vrs: np.dot with the weights (equal up to rounding)"),
+    ("C03", "neutral", [], S, "def _rmsmeth(resp):\n    return np.sqrt((resp**2).mean(axis=0))\n", "def _rmsmeth(resp):\n    return np.sqrt(np.mean(np.abs(resp) ** 2, axis=0))\n", "_rmsmeth: |x|^2 of the real response"),
+    ("C03", "break", ["C03-R8"], S, "def _rmsmeth(resp):\n    return np.sqrt((resp**2).mean(axis=0))\n", "def _rmsmeth(resp):\n    return np.sqrt(np.mean(np.abs(resp) ** 3, axis=0))\n", "_rmsmeth: |x|^3"),
+]
